@@ -51,7 +51,7 @@ func main() {
 		codeFacts.UnbondDeletesCursor, codeFacts.CursorClamps))
 	nh := 60
 	if tier() == "thorough" {
-		nh = 300
+		nh = 200
 	}
 	if mode == "search" {
 		nh = 120
